@@ -165,6 +165,7 @@ def inflate_sites(rep):
 
 
 def extra_checks(rep, pid, ledger, known):
+    object_table_guard(rep, pid)
     # (3) inflate bounds
     rep.functions.append({"function": "every decompress call site under dissect/hypervisor/**", "contract": "inflate output is bounded by the allocation unit it fills (max_length argument)"})
     for rel, line, k, text, ok, why in inflate_sites(rep):
@@ -195,6 +196,33 @@ def extra_checks(rep, pid, ledger, known):
                     "A3 zlib.decompressobj().decompress(data, n) returns at most n bytes")
 
 
+def object_table_guard(rep, pid):
+    """HyperVFile.__init__ appends to the list of object tables it is iterating: a further table is loaded only if its offset differs from
+    that of *every* table loaded so far (finite-universe variant: the distinct offsets named by object-table entries), so tables that list
+    themselves or each other cannot make the walk run forever"""
+    name = "hyperv:HyperVFile.__init__/object_table_loaded_at_most_once"
+    try:
+        node, _ = find_function(rep.repo, HV_FILE, "HyperVFile.__init__")
+    except Unsupported as e:
+        rep.unsupported.append(f"{name}: unsupported({e})")
+        return
+    appends = [n for n in ast.walk(node) if isinstance(n, ast.Call) and ast.unparse(n.func) == "self.object_tables.append"]
+    ok = bool(appends)
+    why = "" if ok else "no append to self.object_tables found"
+    for ap in appends:
+        guard = next((i for i in ast.walk(node) if isinstance(i, ast.If) and any(ap is x for x in ast.walk(i)) and "ObjectTable" in ast.unparse(i.test)), None)
+        conj = [ast.unparse(v) for v in guard.test.values] if guard is not None and isinstance(guard.test, ast.BoolOp) and isinstance(guard.test.op, ast.And) else []
+        import re
+
+        if not any(re.fullmatch(r"all\(\(?(\w+)\.offset != entry\.offset for \1 in self\.object_tables\)?\)", c) or re.fullmatch(r"entry\.offset not in \[?\(?(\w+)\.offset for \1 in self\.object_tables\)?\]?", c) for c in conj):
+            ok, why = False, f"a further object table is loaded without checking its offset against every table loaded so far (guard: {ast.unparse(guard.test)[:120] if guard is not None else None})"
+    rep.functions.append({"function": f"{HV_FILE}:HyperVFile.__init__ (object-table walk)", "contract": "tables are loaded at most once (offset differs from every loaded table)", "props": ["C11"]})
+    rep.obligations[name] = {"verdict": "discharged" if ok else "undischarged", "atoms": 1, "ms": 0, "backends": {"set-inclusion"}, "stages": set(), "line": node.lineno, "props": ["C11"]}
+    if not ok:
+        p = driver.write_replay(pid, name, {"property": pid, "obligation": name, "verifier_output": why})
+        rep.violations.append((p, f"{name}: {why}", True))
+
+
 def contracts(repo):
     return [_snapshot_chain()]
 
@@ -210,7 +238,7 @@ def bounded(rep, pid, known):
     env = dict(os.environ, PYTHONPATH=f"{rep.repo}:{VERIF}")
     total = {"evaluations": 0, "distinct": 0, "failures": []}
     procs = []
-    for fmt in ("vhd", "vdi", "hds", "vhdx", "vmdk", "hyperv", "hddxml"):
+    for fmt in ("vhd", "vdi", "hds", "vhdx", "vmdk", "hyperv", "hddxml", "qcow2"):
         procs.append((fmt, subprocess.Popen([PY, "-m", "replay.fuzz_real", fmt, str(rep.seed), str(n), str(budget)], stdout=subprocess.PIPE, stderr=subprocess.PIPE, text=True, env=env, cwd=VERIF)))
     for fmt, p in procs:
         try:
